@@ -46,3 +46,102 @@ def bvwidth(tc, digest_bytes=0):
     nb = max(n.bit_length(), p.bit_length())
     bl = (n.bit_length() + 7) // 8
     return max(2 * nb + 8, 8 * bl + nb + 4, 8 * digest_bytes + 4)
+
+
+def validate_eg(tier="quick"):
+    """translator validation of the EG abstraction: on every toy curve the real PointJacobi
+    arithmetic (native, unmodified source) is compared with the exponent table for all pairs
+    (i*G + j*G), all k*G with k in [-n, 2n], mul_add, negation and ==; each comparison is one
+    validated trace of the stub boundary"""
+    from symx import core
+    nat = loader.load_native()
+    ec = nat.ellipticcurve
+    ok, bad = 0, []
+    for tc in toy_curves(tier):
+        p, a, b, n, tab = tc["p"], tc["a"], tc["b"], tc["n"], tc["table"]
+        curve = ec.CurveFp(p, a, b, 1)
+
+        def mk(e, z=1, order=None):
+            if e % n == 0:
+                return ec.INFINITY
+            x, y = tab[e % n]
+            return ec.PointJacobi(curve, x * z * z % p, y * z ** 3 % p, z, order)
+
+        def den(R):
+            return None if R is ec.INFINITY else (R.x(), R.y())
+        G = mk(1, 1, n)
+        for i in range(1, n):
+            for j in range(1, n):
+                if den(mk(i, 1 + (i % (p - 1))) + mk(j)) != tab[(i + j) % n]:
+                    bad.append("p=%d: %d*G + %d*G" % (p, i, j))
+                else:
+                    ok += 1
+            if den(-mk(i)) != tab[(n - i) % n] or not (mk(i, 2 if p > 2 else 1) == mk(i)):
+                bad.append("p=%d: neg/eq at %d" % (p, i))
+            else:
+                ok += 1
+        for k in range(-n, 2 * n + 1):
+            if den(G * k) != tab[k % n] or den(mk(1) * k) != tab[k % n]:
+                bad.append("p=%d: %d*G" % (p, k))
+            else:
+                ok += 1
+        for (x_, t, y_) in ((1, 2, 3), (n - 1, 1, 1), (5, n - 1, 5), (0, 3, 4), (7, 3, 0), (-3, 2, -5)):
+            if den(G.mul_add(x_, mk(t), y_)) != tab[(x_ + t * y_) % n]:
+                bad.append("p=%d: mul_add(%d, %d*G, %d)" % (p, x_, t, y_))
+            else:
+                ok += 1
+    return dict(stats=core.Stats().as_dict(), validated=ok, mismatch=bad, functions=[])
+
+
+def validate_instrumented_keys(curve_names=("SECP112r1", "SECP160r1", "NIST256p", "NIST521p", "SECP112r2")):
+    """translator validation of the instrumented import on concrete inputs: key
+    serialisers / loaders / signature codecs give byte-identical results (or the same
+    exception class) in the instrumented package and in the native one"""
+    from symx import core
+    pk = pkg()
+    nat = loader.load_native()
+    ok, bad = 0, []
+
+    def outcome(f):
+        try:
+            return ("ret", f())
+        except Exception as ex:
+            return ("exc", type(ex).__name__)
+    for cn in curve_names:
+        cvi, cvn = getattr(pk.curves, cn), getattr(nat.curves, cn)
+        for d in (1, 2, 255, 256, cvn.order - 1, cvn.order // 2, 0x1234567 % (cvn.order - 1) + 1):
+            ski = pk.keys.SigningKey.from_secret_exponent(d, cvi)
+            skn = nat.keys.SigningKey.from_secret_exponent(d, cvn)
+            blobs = []
+            for enc in ("raw", "uncompressed", "compressed", "hybrid"):
+                a, b = ski.verifying_key.to_string(enc), skn.verifying_key.to_string(enc)
+                ok, bad = (ok + 1, bad) if a == b else (ok, bad + ["%s to_string(%s)" % (cn, enc)])
+                blobs.append(("vk_from_string", b))
+                if enc != "raw":
+                    for fmt in ("ssleay", "pkcs8"):
+                        a, b = ski.to_der(enc, fmt), skn.to_der(enc, fmt)
+                        ok, bad = (ok + 1, bad) if a == b else (ok, bad + ["%s to_der(%s,%s)" % (cn, enc, fmt)])
+                        blobs.append(("sk_from_der", b))
+                        a, b = ski.to_pem(enc, fmt), skn.to_pem(enc, fmt)
+                        ok, bad = (ok + 1, bad) if a == b else (ok, bad + ["%s to_pem" % cn])
+                        blobs.append(("sk_from_pem", b))
+                    b = skn.verifying_key.to_der(enc)
+                    blobs.append(("vk_from_der", b))
+            for kind, blob in blobs:
+                for mut in (blob, blob[:-1], blob[1:], blob[:3] + b"\xff" + blob[4:], blob + b"\x00", b""):
+                    def load(P, cv):
+                        K = P.keys
+                        if kind == "vk_from_string":
+                            k = K.VerifyingKey.from_string(mut, cv)
+                            return k.to_string()
+                        if kind == "vk_from_der":
+                            return K.VerifyingKey.from_der(mut).to_string()
+                        if kind == "sk_from_der":
+                            return K.SigningKey.from_der(mut).to_string()
+                        return K.SigningKey.from_pem(mut).to_string()
+                    a, b = outcome(lambda: load(pk, cvi)), outcome(lambda: load(nat, cvn))
+                    if a == b:
+                        ok += 1
+                    else:
+                        bad.append("%s %s(%s...): instrumented %r native %r" % (cn, kind, mut[:6].hex(), a, b))
+    return dict(stats=core.Stats().as_dict(), validated=ok, mismatch=bad[:10], functions=[])
